@@ -74,6 +74,11 @@ def gen_gap(run):
     run.dyn_compile(['GapGen', 'GapGenProps'])
     return ok
 
+def gen_fmt(run):
+    ok = run.generate('fmt2v(trivia.py: format_trivia, trim_trailing_layout_newline)', ['-W', 'ignore', os.path.join(VERIF, 'tools', 'fmt2v.py'), REPO], 'FmtGen.v')
+    run.dyn_compile(['FmtGen', 'FmtGenProps'])
+    return ok
+
 def gen_cli(run):
     return run.generate('cli2v(cli/main.py:main match arms)', ['-W', 'ignore', os.path.join(VERIF, 'tools', 'cli2v.py'), REPO], 'CliGen.v')
 
@@ -179,6 +184,7 @@ def matrix(run, prop):
 def layout(run, prop, with_matrix=True):
     run.static()
     gen_gap(run)
+    gen_fmt(run)
     run.props()
     big = run.tier == 'thorough'
     run.suite('render', 'f0_corr.py', [run.seed, 4800 if big else 800], 'F0')
